@@ -281,10 +281,12 @@ func (c *Collection) CreateIndex(indexName, columnName string, fn func(r Reader)
 	buffer := commit.NewBuffer(c.Count())
 	reader := commit.NewReader()
 	for chunk := commit.Chunk(0); int(chunk) < chunks; chunk++ {
+		c.slock.RLock(uint(chunk)) // no commit to this chunk between reading the values and indexing them
 		if column.Snapshot(chunk, buffer) {
 			reader.Seek(buffer)
 			index.Apply(chunk, reader)
 		}
+		c.slock.RUnlock(uint(chunk))
 	}
 
 	return nil
@@ -322,10 +324,12 @@ func (c *Collection) CreateSortIndex(indexName, columnName string) error {
 	buffer := commit.NewBuffer(c.Count())
 	reader := commit.NewReader()
 	for chunk := commit.Chunk(0); int(chunk) < chunks; chunk++ {
+		c.slock.RLock(uint(chunk)) // no commit to this chunk between reading the values and indexing them
 		if column.Snapshot(chunk, buffer) {
 			reader.Seek(buffer)
 			index.Apply(chunk, reader)
 		}
+		c.slock.RUnlock(uint(chunk))
 	}
 
 	return nil
